@@ -387,6 +387,77 @@ func matchedIsSticky(c *Ctx, rule string) {
 			R.Check(bad == "", rule, fmt.Sprintf("matchRegex:flag#%d", n), "(*Policy).matchRegex: boolean carried around the pattern scan", c.P.Pos(ph.Pos()), "only ever set to true inside the scan", "the match flag is not sticky: "+bad+" — an element admitted by one pattern is reported as not admitted when a non-matching pattern is visited later (map order), so its start tag and end tag can be judged differently")
 		}
 	}
+	// the flag may also be "the merged map exists" (the result map is made on the first match and the function returns
+	// merged != nil): sticky then means that the map variable, once made, is never set back to nil inside the scan
+	for _, l := range model.RangeLoopsAll(fn) {
+		if !l.IsMap {
+			continue
+		}
+		for _, in := range l.Header.Instrs {
+			ph, ok := in.(*ssa.Phi)
+			if !ok {
+				continue
+			}
+			if _, isMap := ph.Type().Underlying().(*types.Map); !isMap {
+				continue
+			}
+			isFlag := false
+			for _, b := range fn.Blocks {
+				r, ok := b.Instrs[len(b.Instrs)-1].(*ssa.Return)
+				if !ok {
+					continue
+				}
+				for _, res := range r.Results {
+					bo, ok := res.(*ssa.BinOp)
+					if !ok || bo.Op != token.NEQ || !model.IsNil(bo.Y) {
+						continue
+					}
+					if bo.X == ssa.Value(ph) {
+						isFlag = true
+					}
+					if p2, ok := bo.X.(*ssa.Phi); ok {
+						for _, e := range p2.Edges {
+							if e == ssa.Value(ph) {
+								isFlag = true
+							}
+						}
+					}
+				}
+			}
+			if !isFlag {
+				continue
+			}
+			n++
+			bad := ""
+			for i, pred := range l.Header.Preds {
+				if !l.Blocks[pred] {
+					continue
+				}
+				var chk func(v ssa.Value, d int) bool
+				chk = func(v ssa.Value, d int) bool {
+					if v == ssa.Value(ph) {
+						return true
+					}
+					if _, isMake := v.(*ssa.MakeMap); isMake {
+						return true
+					}
+					if p2, ok := v.(*ssa.Phi); ok && d < 4 && l.Blocks[p2.Block()] {
+						for _, e := range p2.Edges {
+							if !chk(e, d+1) {
+								return false
+							}
+						}
+						return true
+					}
+					return false
+				}
+				if !chk(ph.Edges[i], 0) {
+					bad = "on the back edge from block " + pred.String() + " the map whose existence is the verdict receives " + stripIDs(ph.Edges[i].Name())
+				}
+			}
+			R.Check(bad == "", rule, fmt.Sprintf("matchRegex:flag#%d", n), "(*Policy).matchRegex: result map carried around the pattern scan, returned together with (map != nil)", c.P.Pos(ph.Pos()), "once made, never reset inside the scan", "the match verdict is not sticky: "+bad+" — an element admitted by one pattern is reported as not admitted when a non-matching pattern is visited later (map order)")
+		}
+	}
 	R.Role(rule, "flags carried around matchRegex's pattern scan", n, 1)
 }
 
@@ -839,8 +910,9 @@ func barePermissionOnRequest(c *Ctx, rule string) {
 				case *ssa.MapUpdate:
 					if model.LoadedPolicyField(x.Map) == set {
 						what = set
-						if _, isConst := x.Key.(*ssa.Const); isConst {
-							// a fixed name: the default vocabulary, whose content C04.R1 compares with the documented list
+						if !derivesFromParam(x.Key) {
+							// a fixed name (a constant, or an element of a list of constants built in this function): the
+							// default vocabulary, whose content C04.R1 compares with the documented list
 							what = ""
 							ndef++
 						}
@@ -960,4 +1032,219 @@ func barePermissionOnRequest(c *Ctx, rule string) {
 	if n == 0 {
 		R.OK(rule, "internal-request:none", "functions setting the request flag: "+strings.Join(rs, ", "), "", "none of them is called from within the library")
 	}
+}
+
+// derivesFromParam: following operands (bounded), v can depend on a parameter of its function, on a free variable, on
+// a package-level variable or on the result of a call — i.e. on anything that is not fixed by the function's own text.
+func derivesFromParam(v ssa.Value) bool {
+	seen := map[ssa.Value]bool{}
+	var walk func(v ssa.Value, d int) bool
+	walk = func(v ssa.Value, d int) bool {
+		if v == nil || seen[v] {
+			return false
+		}
+		seen[v] = true
+		if d > 12 {
+			return true
+		}
+		switch x := v.(type) {
+		case *ssa.Const:
+			return false
+		case *ssa.Parameter, *ssa.FreeVar, *ssa.Global, *ssa.Call, *ssa.Lookup, *ssa.Next, *ssa.TypeAssert, *ssa.MakeClosure:
+			return true
+		case *ssa.Alloc:
+			// a local: what was stored into it (or into its elements)
+			for _, r := range *x.Referrers() {
+				switch y := r.(type) {
+				case *ssa.Store:
+					if y.Addr == ssa.Value(x) && walk(y.Val, d+1) {
+						return true
+					}
+				case *ssa.IndexAddr:
+					for _, r2 := range *y.Referrers() {
+						if st, ok := r2.(*ssa.Store); ok && st.Addr == ssa.Value(y) && walk(st.Val, d+1) {
+							return true
+						}
+					}
+				case *ssa.FieldAddr:
+					for _, r2 := range *y.Referrers() {
+						if st, ok := r2.(*ssa.Store); ok && st.Addr == ssa.Value(y) && walk(st.Val, d+1) {
+							return true
+						}
+					}
+				}
+			}
+			return false
+		}
+		in, ok := v.(ssa.Instruction)
+		if !ok {
+			return true
+		}
+		for _, op := range in.Operands(nil) {
+			if op != nil && *op != nil && walk(*op, d+1) {
+				return true
+			}
+		}
+		return false
+	}
+	return walk(v, 0)
+}
+
+// singleSerialiser: every destination write of sanitize has payload Token.String() (or a space, or raw data — whose
+// allowUnsafe guard is C06.R1).  Anything else (the parts of a token written separately, another escaper) is outside the
+// escaping that keeps text and comments from becoming markup.
+func singleSerialiser(c *Ctx, rule, consequence string) {
+	R := c.R
+	s3, err := model.FindSan(c.P)
+	if err != nil {
+		R.Unknown(rule, "sanitize", "(*Policy).sanitize", "", err.Error())
+		return
+	}
+	n3 := 0
+	for i, w := range s3.Writes {
+		n3++
+		okW := w.Payload == "TokenString" || w.Payload == "Space" || w.Payload == "RawData" || w.Payload == "Mixed"
+		R.Check(okW, rule, writeKey(s3, i), writeDescr(w), c.P.Pos(w.Call.Pos()), "written through Token.String (or a space, or raw data)", "a token is serialised by something other than Token.String ("+w.Detail+"): "+consequence)
+	}
+	R.Role(rule, "destination writes in sanitize", n3, 6)
+}
+
+// buildersAreFresh (C17.R11): every call that starts a rule (a method of *Policy returning a pointer to one of the
+// module's builder types) returns a builder allocated by that very call.  A builder kept inside the Policy (or in a pool,
+// or a package variable) and handed out again makes two pending rules share names, pattern and flags: what a builder call
+// registers then depends on which other builder calls were made in between.
+func buildersAreFresh(c *Ctx, rule string) {
+	R := c.R
+	n := 0
+	for _, fn := range moduleFuncs(c.P) {
+		if fn.Pkg == nil || fn.Pkg.Pkg.Path() != "github.com/microcosm-cc/bluemonday" || fn.Signature.Recv() == nil || !isPolicyPtr(fn.Signature.Recv().Type()) {
+			continue
+		}
+		res := fn.Signature.Results()
+		if res.Len() != 1 {
+			continue
+		}
+		pt, ok := res.At(0).Type().(*types.Pointer)
+		if !ok {
+			continue
+		}
+		nt, ok := pt.Elem().(*types.Named)
+		if !ok || nt.Obj().Pkg() == nil || nt.Obj().Pkg().Path() != "github.com/microcosm-cc/bluemonday" || nt.Obj().Name() == "Policy" {
+			continue
+		}
+		if _, isStruct := nt.Underlying().(*types.Struct); !isStruct {
+			continue
+		}
+		cnt := 0
+		for _, b := range fn.Blocks {
+			r, ok := b.Instrs[len(b.Instrs)-1].(*ssa.Return)
+			if !ok {
+				continue
+			}
+			n++
+			cnt++
+			var fresh func(v ssa.Value, d int) bool
+			fresh = func(v ssa.Value, d int) bool {
+				switch x := v.(type) {
+				case *ssa.Alloc:
+					return x.Heap
+				case *ssa.Phi:
+					if d > 4 {
+						return false
+					}
+					for _, e := range x.Edges {
+						if !fresh(e, d+1) {
+							return false
+						}
+					}
+					return true
+				}
+				return false
+			}
+			R.Check(fresh(r.Results[0], 0), rule, fmt.Sprintf("builder:%s#%d", pa.CalleeName(fn), cnt), pa.CalleeName(fn)+": returned builder", c.P.Pos(r.Pos()), "allocated by this call",
+				"the builder handed out is not this call's own ("+stripIDs(r.Results[0].Name())+"): a builder obtained earlier and still in use is re-used — its names, pattern and flags are overwritten, so the rules a policy ends up with depend on the order of builder calls")
+		}
+	}
+	R.Role(rule, "returns of builder-starting methods", n, 3)
+}
+
+// patternsAsRegistered (C02.R12): the value pattern of an attribute rule is the regexp object the caller registered.
+// Outside package initialisers every store into a *regexp.Regexp field of a builder or rule type of the module stores a
+// parameter, nil, or a load of such a field — never the result of a call (a pattern re-compiled, merged with another
+// one, wrapped or simplified accepts a different set of values than the one the user wrote).
+func patternsAsRegistered(c *Ctx, rule string) {
+	R := c.R
+	n := 0
+	isRe := func(t types.Type) bool { return t.String() == "*regexp.Regexp" }
+	for _, fn := range moduleFuncs(c.P) {
+		if fn.Pkg == nil || fn.Pkg.Pkg.Path() != "github.com/microcosm-cc/bluemonday" || fn.Name() == "init" && fn.Signature.Recv() == nil {
+			continue
+		}
+		cnt := 0
+		for _, b := range fn.Blocks {
+			for _, in := range b.Instrs {
+				st, ok := in.(*ssa.Store)
+				if !ok || !isRe(st.Val.Type()) {
+					continue
+				}
+				fa, ok := st.Addr.(*ssa.FieldAddr)
+				if !ok {
+					continue
+				}
+				n++
+				cnt++
+				var okV func(v ssa.Value, d int) bool
+				okV = func(v ssa.Value, d int) bool {
+					switch x := v.(type) {
+					case *ssa.Parameter:
+						return true
+					case *ssa.Const:
+						return x.IsNil()
+					case *ssa.UnOp:
+						if x.Op != token.MUL {
+							return false
+						}
+						switch a := x.X.(type) {
+						case *ssa.FieldAddr:
+							return true
+						case *ssa.IndexAddr:
+							_ = a
+							return true // an element of a rule list
+						case *ssa.Alloc:
+							// a local holding one of the above
+							for _, r := range *a.Referrers() {
+								if s2, ok := r.(*ssa.Store); ok && s2.Addr == ssa.Value(a) && (d > 4 || !okV(s2.Val, d+1)) {
+									return false
+								}
+							}
+							return true
+						}
+						return false
+					case *ssa.Phi:
+						if d > 4 {
+							return false
+						}
+						for _, e := range x.Edges {
+							if !okV(e, d+1) {
+								return false
+							}
+						}
+						return true
+					case *ssa.Extract:
+						// element of a range over a rule list / map lookup of a rule table
+						switch x.Tuple.(type) {
+						case *ssa.Next, *ssa.Lookup:
+							return true
+						}
+					case *ssa.Field:
+						return true
+					}
+					return false
+				}
+				R.Check(okV(st.Val, 0), rule, fmt.Sprintf("pattern-store:%s#%d", pa.CalleeName(fn), cnt), pa.CalleeName(fn)+": store to "+pa.FieldName(fa), c.P.Pos(st.Pos()), "the caller's regexp (a parameter, nil, or a copy of a registered one)",
+					"the pattern stored is computed ("+stripIDs(st.Val.Name())+"): the rule judges values by another pattern than the one the caller registered")
+			}
+		}
+	}
+	R.Role(rule, "stores into regexp fields of builders and rules", n, 3)
 }
